@@ -3,8 +3,17 @@ import glob, os, subprocess, sys, time
 import vlib
 from vlib import log
 
-LITE = [("./lite/epochs/", "epochs")]
-APP = []
+import importlib
+
+
+def build_list():
+    res = []
+    for f in sorted(glob.glob(os.path.join(vlib.ROOT, "bin", "checks", "c[0-9]*.py"))):
+        mod = importlib.import_module("checks." + os.path.basename(f)[:-3])
+        for b in getattr(mod, "BUILD", []):
+            if b not in res:
+                res.append(b)
+    return res
 
 
 def main():
@@ -17,7 +26,7 @@ def main():
             print("setup: BigNum self-check failed: %s %s (see %s)" % (r.error, r.violated, r.out))
             return 2
         log("BigNum: pure TLA+ definitions == native ints; java override == pure definitions (%.0fs)" % r.wall)
-        for pkg, name in LITE + APP:
+        for pkg, name in build_list():
             if os.path.isdir(os.path.join(vlib.HARNESS, pkg)):
                 vlib.build_test(pkg, name)
     except vlib.Infra as e:
